@@ -56,6 +56,31 @@ def interesting_starts(rng, n, hi_frac=(70, 20, 8, 2)):
     return out
 
 
+def boundary_hints():
+    """hints h whose shortened backward chunk [h - maxPrimeGap(h), ...] starts exactly on a case-split
+    boundary of the generator (0,1,2,3: sentinel; 719,720,721: cached-prime table / sieve hand-over)"""
+    import math
+    out = []
+    for h in range(0, 900):
+        g = int(math.log(max(8.0, float(h))) ** 2)
+        if max(0, h - g) in (0, 1, 2, 3, 718, 719, 720, 721, 722):
+            out.append(h)
+    return out
+
+
+BOUNDARY_HINTS = boundary_hints()
+
+
+def hint_crossing_history(rng, binding):
+    """descend (or ascend) through the region of the stop_hint"""
+    h = rng.choice(BOUNDARY_HINTS) if rng.chance(1, 2) else rng.below(10 ** rng.between(1, 6))
+    s = h + rng.between(0, 6000)
+    ops = ["NEW %d %d" % (s, h), "PE 3000", "PE 3000", "P", "N", "N"]
+    if rng.chance(1, 2):
+        ops = ["NEW %d %d" % (max(0, h - rng.between(0, 3000)), h), "NE 1100", "NE 1100", "N", "P", "P"]
+    return ops
+
+
 def pick_hint(rng, s):
     k = rng.below(10)
     if k < 4:
@@ -268,3 +293,58 @@ def signature(executed):
 
 def magnitude(v):
     return 0 if v <= 0 else int(math.log10(v))
+
+
+def primes_in(a, b):
+    """oracle primes in [a, b] (segment sieve when the square root is affordable, else Miller-Rabin)"""
+    if b < 2 * 10 ** 15:
+        return oracle.segment_primes(a, b)
+    return oracle.primes_between(a, b)
+
+
+def block_check(executed):
+    """check a history made of NEW/J/SS and GN (or GP) block operations against the specification:
+    every block non-empty, made of consecutive primes, contiguous with the previous block.
+    returns None or (index, expected, observed)"""
+    lo, hi1 = 0, 1
+    for idx, (op, r, _) in enumerate(executed):
+        t = op.split()
+        if t[0] in ("J", "NEW"):
+            lo, hi1 = int(t[1]), int(t[1]) + 1
+        elif t[0] == "GN":
+            p = oracle.next_prime_ge(lo)
+            if p is None:
+                if r != "err":
+                    return (idx, "err", r[:80])
+                continue
+            if not r.startswith("b ") :
+                return (idx, "block starting at %d" % p, r[:80])
+            blk = [int(x) for x in r.split()[1:]]
+            if not blk or blk[0] != p:
+                return (idx, "non-empty block starting at %d" % p, r[:80])
+            exp = primes_in(blk[0], blk[-1])
+            if blk != exp:
+                j = next((i for i in range(min(len(blk), len(exp))) if blk[i] != exp[i]), min(len(blk), len(exp)))
+                return (idx, "consecutive primes; element %d should be %s" % (j, exp[j] if j < len(exp) else "absent"),
+                        "element %d is %s" % (j, blk[j] if j < len(blk) else "absent"))
+            lo = blk[-1] + 1
+        elif t[0] == "GP":
+            p = oracle.prev_prime_lt(hi1)
+            if not r.startswith("b "):
+                return (idx, "a block", r[:80])
+            blk = [int(x) for x in r.split()[1:]]
+            if not blk:
+                return (idx, "non-empty block", "empty block")
+            top = blk[-1]
+            if top != (p if p is not None else 0):
+                return (idx, "block ending at %s" % (p if p is not None else 0), "block ending at %d" % top)
+            body = blk[1:] if blk[0] == 0 else blk
+            exp = primes_in(body[0], body[-1]) if body else []
+            if body != exp:
+                j = next((i for i in range(min(len(body), len(exp))) if body[i] != exp[i]), min(len(body), len(exp)))
+                return (idx, "consecutive primes; element %d should be %s" % (j, exp[j] if j < len(exp) else "absent"),
+                        "element %d is %s" % (j, body[j] if j < len(body) else "absent"))
+            if blk[0] == 0 and body and body[0] != 2:
+                return (idx, "0 sentinel only directly before 2", "0 followed by %d" % body[0])
+            hi1 = blk[0]
+    return None
